@@ -3,7 +3,21 @@ import Hm.C05Conv
 
 /-! C04 (whole message, soundness): what a complete response parse implies about the bytes consumed -/
 
-theorem respSys_step : respSys.step = respStep := rfl
+theorem respSys_step (hl : Option Nat) : (respSys hl).step = respStep hl := rfl
+
+theorem strip_decomp (b : Bytes) : ∃ t, b = stripDanglingCr b ++ t := by
+  unfold stripDanglingCr
+  split
+  · rename_i h; exact ⟨[CR], exists_snoc_of_last h⟩
+  · exact ⟨[], by simp⟩
+
+/-- a header block that is complete without the dangling CR is complete with it -/
+theorem Headers.parse_complete_unstrip {hl : Option Nat} {hs0 hs : List Header} {b : Bytes} {c : Nat}
+    (h : Headers.parse hl hs0 (stripDanglingCr b) = .ok (hs, .complete, c)) :
+    Headers.parse hl hs0 b = .ok (hs, .complete, c) := by
+  obtain ⟨t, ht⟩ := strip_decomp b
+  have := (Headers.parse_append_complete h t).1
+  rw [← ht] at this; exact this
 
 /-- C04 (whole message, soundness): if the parser reports a complete response after `n` bytes of `s`,
     then `s` starts with a status line `HTTP/1.1 SP code SP reason` (as `parseStatusLine` accepts it,
@@ -11,11 +25,11 @@ theorem respSys_step : respSys.step = respStep := rfl
     and the body is framed — in this order of precedence — by Content-Length (exactly that many bytes,
     nothing more consumed), else by `chunked` (the consumed bytes form a well-formed chunked body in
     the sense of C05, the body is its payload), else it is empty and nothing more is consumed -/
-theorem C04_accept_sound {s : Bytes} {st : RespState} {n : Nat}
-    (h : respSys.parse Response.new s = .ok .complete st n) :
+theorem C04_accept_sound (hl : Option Nat) {s : Bytes} {st : RespState} {n : Nat}
+    (h : (respSys hl).parse Response.new s = .ok .complete st n) :
     ∃ e c hs, findCrlf s = some e ∧ validUtf8 (s.take e) = true ∧
       parseStatusLine ⟨true⟩ (s.take e) = .ok (st.statusCode, st.reasonPhrase) ∧
-      Headers.parse none [] (s.drop (e + 2)) = .ok (hs, .complete, c) ∧
+      Headers.parse hl [] (s.drop (e + 2)) = .ok (hs, .complete, c) ∧
       ((∃ v cl, headerValue hs kContentLength = some v ∧ parseNumber ⟨true⟩ 10 v = some cl ∧
           st.headers = hs ∧ st.body = ((s.drop (e + 2)).drop c).take cl ∧ st.body.length = cl ∧ n = e + 2 + c + cl) ∨
        (headerValue hs kContentLength = none ∧ hasHeaderToken hs kTransferEncoding kChunked = true ∧
@@ -24,12 +38,12 @@ theorem C04_accept_sound {s : Bytes} {st : RespState} {n : Nat}
        (headerValue hs kContentLength = none ∧ hasHeaderToken hs kTransferEncoding kChunked = false ∧
           st.headers = hs ∧ st.body = [] ∧ n = e + 2 + c)) := by
   unfold Sys.parse at h
-  have hμ : respSys.μ Response.new s.length = 3 := rfl
+  have hμ : (respSys hl).μ Response.new s.length = 3 := rfl
   rw [hμ] at h
   -- the status line
   unfold Sys.loop at h
-  rw [respSys_step] at h
-  have hs1 : respStep Response.new s = rstatusStep Response.new s := rfl
+  rw [respSys_step hl] at h
+  have hs1 : respStep hl Response.new s = rstatusStep Response.new s := rfl
   rw [hs1] at h
   unfold rstatusStep at h
   cases hf : findCrlf s with
@@ -45,20 +59,21 @@ theorem C04_accept_sound {s : Bytes} {st : RespState} {n : Nat}
         simp only [hp] at h
         -- the header block
         unfold Sys.loop at h
-        rw [respSys_step] at h
-        have hs2 : ∀ x, respStep { Response.new with phase := .headers, statusCode := code, reasonPhrase := reason } x
-            = rhdrStep { Response.new with phase := .headers, statusCode := code, reasonPhrase := reason } x := fun _ => rfl
+        rw [respSys_step hl] at h
+        have hs2 : ∀ x, respStep hl { Response.new with phase := .headers, statusCode := code, reasonPhrase := reason } x
+            = rhdrStep hl { Response.new with phase := .headers, statusCode := code, reasonPhrase := reason } x := fun _ => rfl
         rw [hs2] at h
         unfold rhdrStep at h
         simp only [Response.new] at h
-        cases hh : Headers.parse none [] (s.drop (e + 2)) with
-        | error e2 => simp [hh] at h
+        cases hh0 : Headers.parse hl [] (stripDanglingCr (s.drop (e + 2))) with
+        | error e2 => simp [hh0] at h
         | ok r =>
           obtain ⟨hs, hst, c⟩ := r
           cases hst with
-          | incomplete => simp [hh] at h
+          | incomplete => simp [hh0] at h
           | complete =>
-            simp only [hh] at h
+            have hh := Headers.parse_complete_unstrip hh0
+            simp only [hh0] at h
             unfold rframing at h
             cases hcl : headerValue hs kContentLength with
             | some v =>
@@ -69,7 +84,7 @@ theorem C04_accept_sound {s : Bytes} {st : RespState} {n : Nat}
                 simp only [hn] at h
                 -- the declared-length body
                 unfold Sys.loop at h
-                rw [respSys_step] at h
+                rw [respSys_step hl] at h
                 unfold respStep at h
                 simp only at h
                 unfold rfixedStep at h
@@ -87,7 +102,7 @@ theorem C04_accept_sound {s : Bytes} {st : RespState} {n : Nat}
               · rw [if_pos hch] at h
                 -- the chunked body
                 unfold Sys.loop at h
-                rw [respSys_step] at h
+                rw [respSys_step hl] at h
                 unfold respStep at h
                 simp only at h
                 unfold rchunkStep at h
